@@ -256,6 +256,8 @@ def consumers_for(bad_cycles):
 
 def run(ctx, only=None):
     quick = ctx.tier == "quick"
+    if os.environ.get("C19_ONLY"):          # development aid (mutation testing): restrict the sweep to some consumers
+        only = os.environ["C19_ONLY"].split(",")
     broken = []
     g = None
     try:
@@ -364,12 +366,13 @@ def run(ctx, only=None):
                 ctx.violation("tail-not-constant:" + c, {"kind": "tail", "consumer": c, "container": k, "depth": badd[0], "result": res[badd[0]],
                                                           "variant": label, "stack_kb": 8192},
                               what="tail-call loop `%s` of depth %d does not run in constant fiber stack: %s" % (c, badd[0], res[badd[0]]))
-                break
+        if ctx.nviol and label.endswith("8MB"):
+            break
     by_consumer = {c: v for (c, _), v in by_consumer.items()}
     if g and g.bad:
         covered = set()
         for cyc in g.bad:
-            cs = [c for fn in cyc for c in ENTRY_CONSUMERS.get(fn, [])]
+            cs = consumers_for([cyc])
             if any(c in by_consumer for c in cs):
                 covered.add(tuple(cyc))
         for cyc in g.bad:
